@@ -88,7 +88,13 @@ pub fn prepare(rng: &mut Rng, p: &'static Profile) -> (String, usize, Prep) {
     if rng.chance(1, 5) {
         wl::add_skip_noise(&mut g);
     }
-    let k_limit = draw_k(rng, &g);
+    let mut k_limit = draw_k(rng, &g);
+    if p.gtype == GType::LL && p.terms == wl::Terms::Letters && rng.chance(1, 8) {
+        // explicit partition of the strings of length k (crossed lookahead tries)
+        let (pg, k) = wl::gen_partition_template(rng);
+        g = pg;
+        k_limit = rng.range(k, 5);
+    }
     let par = g.to_par();
     (par, k_limit, prepare_grammar(g, p.name, k_limit, &GenCfg::default()))
 }
